@@ -65,8 +65,11 @@ class _RangeExprHandler:
         return self._sdv.references
 
     def resolve(self, symbols: SymbolTable):
-        if self.range_expr_str is None:
-            self.range_expr_str = self._sdv.resolve(symbols).value_when_no_dir_dependencies()
+        range_expr_str = self._sdv.resolve(symbols).value_when_no_dir_dependencies()
+        if self.range_expr_str != range_expr_str:
+            # Another symbol table gives another value
+            # (e.g. the instruction belongs to a test suite and is executed in more than one test case).
+            self.range_expr_str = range_expr_str
             self.validator = _RangeValidator(self.range_expr_str)
 
 
